@@ -1009,13 +1009,15 @@ impl UtpStreamReadHalf {
             vsock_closed,
             queue,
             dispatcher_waker,
+            dispatcher_waker_on_drop,
             reader_waker,
         } = &*g;
         out.push(
             (*reader_dropped as u64)
                 | (*vsock_closed as u64) << 1
                 | (dispatcher_waker.is_some() as u64) << 2
-                | (reader_waker.is_some() as u64) << 3,
+                | (reader_waker.is_some() as u64) << 3
+                | (dispatcher_waker_on_drop.is_some() as u64) << 4,
         );
         queue.verif_fp(out);
     }
@@ -1094,13 +1096,15 @@ impl UserRx {
                 vsock_closed,
                 queue,
                 dispatcher_waker,
+                dispatcher_waker_on_drop,
                 reader_waker,
             } = &*g;
             out.push(
                 (*reader_dropped as u64)
                     | (*vsock_closed as u64) << 1
                     | (dispatcher_waker.is_some() as u64) << 2
-                    | (reader_waker.is_some() as u64) << 3,
+                    | (reader_waker.is_some() as u64) << 3
+                    | (dispatcher_waker_on_drop.is_some() as u64) << 4,
             );
             queue.verif_fp(out);
         }
